@@ -24,6 +24,8 @@ import (
 // ---- C20: interceptors and stats handlers ------------------------------------
 
 type C20Case struct {
+	// Alt: per RPC, whether it calls the second method of its kind ("u2"/"s2") instead of the first; one Server serves both
+	Alt []bool `json:"alt,omitempty"`
 	// LateCancel (unary, outcome ok): the caller's context is cancelled from inside a client stats handler when the reply's
 	// InPayload event is delivered, i.e. after the call has been decided; the call still succeeds and End must say so
 	LateCancel bool `json:"late_cancel,omitempty"`
@@ -68,6 +70,9 @@ func genC20(t *rapid.T) C20Case {
 	c.CStats = rapid.IntRange(1, 3).Draw(t, "cstats")
 	c.Single = ns == 1 && rapid.Bool().Draw(t, "single")
 	c.RPCs = rapid.IntRange(1, 3).Draw(t, "rpcs")
+	for i := 0; i < c.RPCs+1; i++ { // (+1: the RPC started after a transport failure)
+		c.Alt = append(c.Alt, rapid.Bool().Draw(t, "alt"))
+	}
 	c.Unread = rapid.Bool().Draw(t, "unread") && (c.Kind == kit.KindServer || c.Kind == kit.KindBidi) && (c.Outcome == "cancel" || c.Outcome == "deadline")
 	return c
 }
@@ -169,6 +174,14 @@ func (s sendTagStream) SendMsg(m any) error {
 	return s.ServerStream.SendMsg(m)
 }
 
+// altTag is the suffix of the method RPC n calls.
+func (c C20Case) altTag(n int) string {
+	if n < len(c.Alt) && c.Alt[n] {
+		return "2"
+	}
+	return ""
+}
+
 func (c C20Case) handlerErr() error {
 	switch c.HErr {
 	case "eof":
@@ -197,6 +210,8 @@ func execC20(t *testing.T, c C20Case) (v Verdict) {
 	}
 	results := make([]result, c.RPCs)
 	traces := make([][]string, c.RPCs)
+	infoSeen := make([][]string, c.RPCs) // per RPC: the FullMethod each server interceptor was told
+	var infoMethods []string
 	sst := make([]*recStats, c.SStats)
 	cst := make([]*recStats, c.CStats)
 	serveReturned := false
@@ -215,11 +230,17 @@ func execC20(t *testing.T, c C20Case) (v Verdict) {
 			dopts = append(dopts, goat.WithStatsHandler(cst[i]))
 		}
 		// ---- server interceptors ----
+		noteMethod := func(m string) {
+			mu.Lock()
+			infoMethods = append(infoMethods, m)
+			mu.Unlock()
+		}
 		var uis []grpc.UnaryServerInterceptor
 		var sis []grpc.StreamServerInterceptor
 		for i, tr := range c.Server {
 			i, tr := i, tr
 			uis = append(uis, func(ctx context.Context, req any, info *grpc.UnaryServerInfo, h grpc.UnaryHandler) (any, error) {
+				noteMethod(info.FullMethod)
 				log(fmt.Sprintf("S%d>", i))
 				defer log(fmt.Sprintf("S%d<", i))
 				switch tr {
@@ -244,6 +265,7 @@ func execC20(t *testing.T, c C20Case) (v Verdict) {
 				return resp, err
 			})
 			sis = append(sis, func(srv any, ss grpc.ServerStream, info *grpc.StreamServerInfo, h grpc.StreamHandler) error {
+				noteMethod(info.FullMethod)
 				log(fmt.Sprintf("S%d>", i))
 				defer log(fmt.Sprintf("S%d<", i))
 				switch tr {
@@ -304,60 +326,63 @@ func execC20(t *testing.T, c C20Case) (v Verdict) {
 		}
 		svc := kit.NewSvc()
 		hdone := make(chan struct{}, 16)
-		svc.Unary("u", func(ctx context.Context, req []byte) ([]byte, error) {
-			log("H>")
-			defer log("H<")
-			defer func() { hdone <- struct{}{} }()
-			md, _ := metadata.FromIncomingContext(ctx)
-			mu.Lock()
-			handlerReqs = append(handlerReqs, append([]byte{}, req...))
-			handlerMD = append(handlerMD, md.Copy())
-			mu.Unlock()
-			switch c.Outcome {
-			case "herr":
-				return nil, c.handlerErr()
-			case "cancel", "deadline", "transport":
-				// a caller's cancellation of a unary call is not conveyed to the server
-				// (no reset for unary calls), so the harness releases the handler itself
+		for _, tag := range []string{"", "2"} {
+			tag := tag
+			svc.Unary("u"+tag, func(ctx context.Context, req []byte) ([]byte, error) {
+				log("H>")
+				defer log("H<")
+				defer func() { hdone <- struct{}{} }()
+				md, _ := metadata.FromIncomingContext(ctx)
 				mu.Lock()
-				rel := release
+				handlerReqs = append(handlerReqs, append([]byte{}, req...))
+				handlerMD = append(handlerMD, md.Copy())
 				mu.Unlock()
-				select {
-				case <-ctx.Done():
-				case <-rel:
+				switch c.Outcome {
+				case "herr":
+					return nil, c.handlerErr()
+				case "cancel", "deadline", "transport":
+					// a caller's cancellation of a unary call is not conveyed to the server
+					// (no reset for unary calls), so the harness releases the handler itself
+					mu.Lock()
+					rel := release
+					mu.Unlock()
+					select {
+					case <-ctx.Done():
+					case <-rel:
+					}
+					return nil, status.Error(codes.Canceled, "released")
 				}
-				return nil, status.Error(codes.Canceled, "released")
-			}
-			return append([]byte("R:"), req...), nil
-		})
-		svc.Stream("s", true, true, func(s grpcServerStream) error {
-			log("H>")
-			defer log("H<")
-			defer func() { hdone <- struct{}{} }()
-			md, _ := metadata.FromIncomingContext(s.Context())
-			b, err := kit.RecvBytes(s)
-			mu.Lock()
-			handlerReqs = append(handlerReqs, append([]byte{}, b...))
-			handlerMD = append(handlerMD, md.Copy())
-			mu.Unlock()
-			if err != nil {
-				return status.FromContextError(s.Context().Err()).Err()
-			}
-			switch c.Outcome {
-			case "herr":
-				return c.handlerErr()
-			case "cancel", "deadline", "transport":
-				if c.Unread {
-					_ = kit.SendBytes(s, []byte("never read"))
+				return append([]byte("R"+tag+":"), req...), nil
+			})
+			svc.Stream("s"+tag, true, true, func(s grpcServerStream) error {
+				log("H>")
+				defer log("H<")
+				defer func() { hdone <- struct{}{} }()
+				md, _ := metadata.FromIncomingContext(s.Context())
+				b, err := kit.RecvBytes(s)
+				mu.Lock()
+				handlerReqs = append(handlerReqs, append([]byte{}, b...))
+				handlerMD = append(handlerMD, md.Copy())
+				mu.Unlock()
+				if err != nil {
+					return status.FromContextError(s.Context().Err()).Err()
 				}
-				<-s.Context().Done()
-				return status.FromContextError(s.Context().Err()).Err()
-			}
-			if err := kit.SendBytes(s, append([]byte("R:"), b...)); err != nil {
-				return err
-			}
-			return nil
-		})
+				switch c.Outcome {
+				case "herr":
+					return c.handlerErr()
+				case "cancel", "deadline", "transport":
+					if c.Unread {
+						_ = kit.SendBytes(s, []byte("never read"))
+					}
+					<-s.Context().Done()
+					return status.FromContextError(s.Context().Err()).Err()
+				}
+				if err := kit.SendBytes(s, append([]byte("R"+tag+":"), b...)); err != nil {
+					return err
+				}
+				return nil
+			})
+		}
 		w := kit.NewWorld(kit.Topo{Kind: "direct", Serialize: c.Ser, Clients: 1}, svc, sopts, dopts)
 		l := w.Links[0]
 		l.A.FailWriteIf(func(r *kit.Rpc) bool {
@@ -376,6 +401,7 @@ func execC20(t *testing.T, c C20Case) (v Verdict) {
 			rel := make(chan struct{})
 			mu.Lock()
 			trace = nil
+			infoMethods = nil
 			release = rel
 			mu.Unlock()
 			ctx, cancel := context.WithCancel(context.Background())
@@ -400,11 +426,11 @@ func execC20(t *testing.T, c C20Case) (v Verdict) {
 				defer close(done)
 				req := []byte{'q', byte('0' + n)}
 				if c.Kind == kit.KindUnary {
-					rep, err := kit.Invoke(ctx, cc, "u", req)
+					rep, err := kit.Invoke(ctx, cc, "u"+c.altTag(n), req)
 					results[n] = result{rep, err, true}
 					return
 				}
-				cs, err := cc.NewStream(ctx, kit.StreamDescFor(c.Kind), kit.FullMethod("s"))
+				cs, err := cc.NewStream(ctx, kit.StreamDescFor(c.Kind), kit.FullMethod("s"+c.altTag(n)))
 				if err != nil {
 					results[n] = result{nil, err, true}
 					return
@@ -449,6 +475,7 @@ func execC20(t *testing.T, c C20Case) (v Verdict) {
 			kit.Settle()
 			mu.Lock()
 			traces[n] = append([]string{}, trace...)
+			infoSeen[n] = append([]string{}, infoMethods...)
 			mu.Unlock()
 		}
 		if c.Outcome == "transport" {
@@ -458,10 +485,10 @@ func execC20(t *testing.T, c C20Case) (v Verdict) {
 			go func() {
 				defer close(adone)
 				if c.Kind == kit.KindUnary {
-					_, afterErr = kit.Invoke(actx, cc, "u", []byte("after"))
+					_, afterErr = kit.Invoke(actx, cc, "u"+c.altTag(c.RPCs), []byte("after"))
 				} else {
 					var cs grpc.ClientStream
-					cs, afterErr = cc.NewStream(actx, kit.StreamDescFor(c.Kind), kit.FullMethod("s"))
+					cs, afterErr = cc.NewStream(actx, kit.StreamDescFor(c.Kind), kit.FullMethod("s"+c.altTag(c.RPCs)))
 					if afterErr == nil {
 						_, afterErr = kit.RecvBytes(cs)
 					}
@@ -566,8 +593,17 @@ func execC20(t *testing.T, c C20Case) (v Verdict) {
 		if strings.Join(handlerMD[n]["via"], ",") != strings.Join(wantVia, ",") || strings.Join(handlerMD[n]["cvia"], ",") != strings.Join(wantCvia, ",") {
 			v.failf("rpc %d: handler saw metadata via=%v cvia=%v, chain adds via=%v cvia=%v", n, handlerMD[n]["via"], handlerMD[n]["cvia"], wantVia, wantCvia)
 		}
+		wantMethod := kit.FullMethod("s" + c.altTag(n))
+		if c.Kind == kit.KindUnary {
+			wantMethod = kit.FullMethod("u" + c.altTag(n))
+		}
+		for _, m := range infoSeen[n] {
+			if m != wantMethod {
+				v.failf("rpc %d called %s, a server interceptor was told it is %s", n, wantMethod, m)
+			}
+		}
 		if c.Outcome == "ok" {
-			wantReply := append([]byte("R:"), want...)
+			wantReply := append([]byte("R"+c.altTag(n)+":"), want...)
 			for i := len(c.Server) - 1; i >= 0; i-- {
 				if c.Server[i] == "reply" {
 					wantReply = append(wantReply, byte('a'+i))
